@@ -190,6 +190,8 @@ class Answerer(object):
             return no if r.random() < 0.7 else yes
         if base == "schedule_1_income_adjustments":
             return yes if p.sched1_adjust else no
+        if base in ("additions_to_agi", "deductions_from_agi", "try_itemizing", "veteran", "spouse_veteran", "nc_residents", "no_consumer_use_tax"):
+            return yes if r.random() < 0.45 else no
         if base in ("you_presidential_election", "spouse_presidential_election", "checking_account"):
             return r.choice([yes, no])
         m = re.match(r"dependent_(\d+)_(ctc|odc)$", base)
